@@ -204,6 +204,13 @@ def stopReaches : List Call → List Obs → Bool
 def cStopReaches (i : Input) (t : Trace) : Bool :=
   !(inScope i && i.shape.noStream) || stopReaches i.hist t.obs
 
+/-- a stop below is visible above: the object reported to reads `shouldStop` exactly when one of the results under it
+does — whichever of them asked for the stop (its own fail-fast, set before wrapping, or a `stop()` that reached it), a
+suite that consults the top stops dispatching ("so that suites stop dispatching tests"); and nothing above the results
+invents a stop of its own -/
+def cStopVisible (i : Input) (t : Trace) : Bool :=
+  !(inScope i && i.shape.noStream) || t.obs.all fun o => o.ss == o.leafStop.any id
+
 /-- `stop()` on the object reported to makes its `shouldStop` read true — on every graph: through old-flavour results
 (the adapter's reading) and on a stream pipeline, where `stop()` is the `ExtendedToStreamDecorator`'s own
 (`TestControl`): it is what suites consult, and it does not go on to the results behind the stream -/
@@ -348,7 +355,7 @@ def clauses : List (String × (Input → Trace → Bool)) :=
   [("verdict", cVerdict), ("text-summary", cText), ("failfast-kept", cFailfastKept),
    ("failfast-stops", cFailfastStops), ("stop-sticky", cSticky), ("not-earlier", cNotEarlier),
    ("stop-reaches", cStopReaches), ("stop-sets", cStopSets), ("failfast-read", cFailfastRead), ("leaf-failfast-kept", cLeafKept), ("leaf-stops", cLeafStops), ("stream-failfast-callback", cCallback),
-   ("exit-status", cExit)]
+   ("exit-status", cExit), ("stop-visible", cStopVisible)]
 
 def holds (i : Input) (t : Trace) : Bool := clauses.all fun c => c.2 i t
 
